@@ -177,8 +177,15 @@ func (c *MemoryCache[MetadataT]) cacheInternal(key CacheKey, data io.Reader, exp
 	}
 
 	c.mu.Lock()
+	oldEntry, replaced := c.entries[key]
 	c.entries[key] = internalEntry
 	c.mu.Unlock()
+
+	if replaced {
+		// The previous entry for this key is gone: take it out of the counters
+		decrementCacheEntries()
+		decrementCacheSize(&c.byteSize, oldEntry.meta.Size)
+	}
 
 	incrementCacheEntries()
 	addCacheSize(&c.byteSize, int64(count))
